@@ -85,10 +85,13 @@ class BaseFiles(Generic[Interface]):
         if if_none_match == "*":
             return True
 
-        if if_none_match.startswith("W/"):
-            if_none_match = if_none_match[2:]
+        def opaque_tag(entity_tag: str) -> str:
+            entity_tag = entity_tag.strip()
+            if entity_tag.startswith("W/"):
+                entity_tag = entity_tag[2:]
+            return entity_tag.strip('"')
 
-        return any(etag == i.strip().strip('"') for i in if_none_match.split(","))
+        return any(etag == opaque_tag(i) for i in if_none_match.split(","))
 
     def if_modified_since(self, last_modified: float, if_modified_since: str) -> bool:
         try:
